@@ -1,7 +1,10 @@
 #!/bin/sh
-# tools/seedtest.sh <patch.diff> <property-id> [extra check args]: apply a seeded change to /repo, run the check, undo the change
+# tools/seedtest.sh <patch.diff> <property-id> [extra check args]
+# Runs the check against a scratch worktree of /repo's HEAD with the seeded change applied (VERIF_REPO), so that /repo itself
+# stays untouched and several seeds can be tried in parallel.  The worktree is removed afterwards.
 P="$1"; ID="$2"; shift 2
-git -C /repo apply "$P" || { echo "patch does not apply"; exit 3; }
-cd /verif && timeout 1500 ./check "$ID" "$@" 2>&1 | grep -v conda | cut -c1-400 | tail -8
-git -C /repo checkout -- .
-git -C /repo status --short | head -3
+WT=$(mktemp -d /tmp/seedwt.XXXXXX); rmdir "$WT"
+git -C /repo worktree add -q --detach "$WT" HEAD || exit 3
+git -C "$WT" apply "$P" || { echo "patch does not apply"; git -C /repo worktree remove --force "$WT"; exit 3; }
+cd /verif && VERIF_REPO="$WT" timeout 2400 ./check "$ID" "$@" 2>&1 | grep -v conda | cut -c1-400 | tail -8
+git -C /repo worktree remove --force "$WT"
